@@ -880,7 +880,8 @@ def _simplify_defensive(fn: ast.AST) -> int:
                         st.test, st.body, st.orelse = neg(st.test), st.orelse, []
                         count[0] += 1
                     # S7
-                    if not st.orelse and len(st.body) == 1 and isinstance(st.body[0], ast.If) and not st.body[0].orelse:
+                    if not st.orelse and len(st.body) == 1 and isinstance(st.body[0], ast.If) and not st.body[0].orelse \
+                            and not any(isinstance(x, ast.NamedExpr) for x in ast.walk(st.body[0].test)):
                         inner = st.body[0]
                         st.test = chain_comparisons(flatten_boolop(ast.copy_location(ast.BoolOp(op=ast.And(), values=[st.test, inner.test]), st.test)))
                         st.body = inner.body
@@ -2621,4 +2622,106 @@ def unfold_reduce(fn: ast.AST, resolve) -> int:
             out.append(st)
         return out
     fn.body = block(fn.body)
+    return count[0]
+
+
+PURE_METHODS = {"startswith", "endswith", "isdigit", "isalpha", "isalnum", "lower", "upper", "strip", "lstrip", "rstrip", "get", "keys", "values", "items"}
+
+
+def pure_test(e: ast.AST) -> bool:
+    for x in ast.walk(e):
+        if isinstance(x, ast.Call):
+            if isinstance(x.func, ast.Attribute) and x.func.attr in PURE_METHODS:
+                continue
+            if isinstance(x.func, ast.Name) and x.func.id in ("isinstance", "len", "abs", "str", "float", "int", "bool"):
+                continue
+            return False
+        if isinstance(x, (ast.NamedExpr, ast.Await, ast.Yield, ast.YieldFrom, ast.Lambda)):
+            return False
+    return True
+
+
+def first_match_lists(fn: ast.AST) -> int:
+    """L14: `found = [E for row in <table> if C]` ; `if found: return found[0]`  ->  one guard clause per row (`if C_k: return E_k`),
+    when the tests are plain method / comparison tests (testing every row first or stopping at the first hit is then the same) and
+    `found` is used nowhere else."""
+    from .normalize import Subst, is_const_expr
+    if not isinstance(fn, (ast.FunctionDef, ast.AsyncFunctionDef)):
+        return 0
+    esc = escaping_names(fn) | params_of(fn)
+    count = [0]
+
+    def block(stmts):
+        stmts = list(stmts)
+        for st in stmts:
+            if isinstance(st, FUNC):
+                continue
+            for fld in ("body", "orelse", "finalbody"):
+                if getattr(st, fld, None):
+                    setattr(st, fld, block(getattr(st, fld)))
+            for h in getattr(st, "handlers", []) or []:
+                h.body = block(h.body)
+        i = 0
+        while i + 1 < len(stmts):
+            a, b = stmts[i], stmts[i + 1]
+            t = plain_assign(a)
+            if t and t not in esc and isinstance(a.value, ast.ListComp) and len(a.value.generators) == 1 and a.value.generators[0].ifs and not a.value.generators[0].is_async \
+                    and isinstance(a.value.generators[0].iter, (ast.Tuple, ast.List)) and 1 <= len(a.value.generators[0].iter.elts) <= 12 \
+                    and all(is_const_expr(x) for x in a.value.generators[0].iter.elts) \
+                    and isinstance(b, ast.If) and isinstance(b.test, ast.Name) and b.test.id == t and len(b.body) == 1 and isinstance(b.body[0], ast.Return) \
+                    and isinstance(b.body[0].value, ast.Subscript) and isinstance(b.body[0].value.value, ast.Name) and b.body[0].value.value.id == t \
+                    and isinstance(b.body[0].value.slice, ast.Constant) and b.body[0].value.slice.value == 0 \
+                    and len(names_in(fn, t)[0]) == 2 and len(names_in(fn, t)[1]) == 1 and all(pure_test(c) for c in a.value.generators[0].ifs) and pure_test(a.value.elt):
+                g = a.value.generators[0]
+                new = []
+                ok = True
+                for row in g.iter.elts:
+                    m: Dict[str, ast.AST] = {}
+                    if not bind_pattern(g.target, row, m):
+                        ok = False
+                        break
+                    conds = [Subst(m).visit(copy.deepcopy(c)) for c in g.ifs]
+                    cond = conds[0] if len(conds) == 1 else ast.BoolOp(op=ast.And(), values=conds)
+                    ret = ast.Return(value=Subst(m).visit(copy.deepcopy(a.value.elt)))
+                    new.append(ast.copy_location(ast.If(test=cond, body=[ret], orelse=[]), a))
+                if ok:
+                    tail = list(b.orelse)
+                    for x in new:
+                        ast.fix_missing_locations(x)
+                    stmts[i:i + 2] = new + tail
+                    count[0] += 1
+                    continue
+            i += 1
+        return stmts
+    fn.body = block(fn.body)
+    return count[0]
+
+
+def split_walrus_conjunctions(fn: ast.AST) -> int:
+    """`if A and (n := f(x)) > 3: BODY` (no else)  ->  `if A:` `if (n := f(x)) > 3: BODY` so that the binding can be written as a statement."""
+    if not isinstance(fn, (ast.FunctionDef, ast.AsyncFunctionDef)):
+        return 0
+    count = [0]
+
+    def block(stmts):
+        for st in stmts:
+            if isinstance(st, FUNC):
+                continue
+            for fld in ("body", "orelse", "finalbody"):
+                if getattr(st, fld, None):
+                    block(getattr(st, fld))
+            for h in getattr(st, "handlers", []) or []:
+                block(h.body)
+            if isinstance(st, ast.If) and not st.orelse and isinstance(st.test, ast.BoolOp) and isinstance(st.test.op, ast.And):
+                vals = st.test.values
+                k = next((i for i, v in enumerate(vals) if i > 0 and any(isinstance(x, ast.NamedExpr) for x in ast.walk(v))), None)
+                if k is not None:
+                    head = vals[0] if k == 1 else ast.BoolOp(op=ast.And(), values=vals[:k])
+                    rest = vals[k] if k == len(vals) - 1 else ast.BoolOp(op=ast.And(), values=vals[k:])
+                    inner = ast.copy_location(ast.If(test=rest, body=st.body, orelse=[]), st)
+                    st.test, st.body = head, [inner]
+                    ast.fix_missing_locations(st)
+                    count[0] += 1
+        return stmts
+    block(fn.body)
     return count[0]
